@@ -111,8 +111,11 @@ def check_enc(e, c):
     cls, ver = c["cls"], c["ver"]
     pre = "C04:layout:%s:v%d:enc" % (cls, ver)
     ref = ref_octets(e, c)
+    e["last_buf"] = None
     try:
-        got = bytes(E.build_tk(e["dm"], c).gen_msg(c["legacy"]))
+        buf = E.build_tk(e["dm"], c).gen_msg(c["legacy"])
+        got = bytes(buf)
+        e["last_buf"] = buf         # the object gen_msg() returned, for the aliasing check of the encoder leg
     except Exception as ex:
         return ref, [("%s:raises-%s" % (pre, type(ex).__name__),
                       "gen_msg(legacy=%s) raised %s(%s) on a valid message" % (c["legacy"], type(ex).__name__, ex))]
@@ -352,6 +355,58 @@ def extras(c, D):
                                           tsc=c["tsc"], ci=c["ci"])
 
 
+def unexpected(leg, ex):
+    """violation for an exception that escaped a leg: the code under test (or a consequence of its misbehaviour) must never
+    turn into a harness error"""
+    return ("C04:unexpected-exception:%s:%s" % (leg, type(ex).__name__),
+            "%s(%s) escaped the %s leg" % (type(ex).__name__, str(ex)[:200], leg))
+
+
+def companion(c):
+    """a valid message of the OTHER class and another burst length, encoded right after c at the visit points so that
+    the buffers kept for the aliasing check come from different classes / versions / lengths"""
+    if c["cls"] == "rx":
+        return {"cls": "tx", "ver": c["ver"], "legacy": c["legacy"], "tn": c["tn"], "fn": c["fn"], "pwr": (c["tn"] * 37 + 1) % 256,
+                "bl": 444 if c["bl"] == 148 else 148, "burst": ["alt"], "grp": "companion"}
+    return {"cls": "rx", "ver": 0, "legacy": c["legacy"], "tn": c["tn"], "fn": c["fn"], "rssi": -60 - c["tn"], "toa": c["pwr"] - 128,
+            "ci": None, "nope": False, "mod": None, "tsc_set": None, "tsc": None, "bl": 444 if c["bl"] == 148 else 148,
+            "burst": ["ramp"], "grp": "companion"}
+
+
+class EncRing:
+    """encoder leg: the objects gen_msg() returned for the previous three messages are kept and compared again with their
+    reference octets after every later gen_msg() (C04:history:<cls>:v<ver>:enc-aliasing)"""
+
+    def __init__(self):
+        self.ring = []              # (returned object, reference octets, case)
+        self.checks = 0
+
+    def after_encode(self, buf, ref, c):
+        """call after case c was encoded (buf = object returned, None when it raised or differed from ref) -> problems"""
+        out = []
+        for ob, oref, oc in self.ring:
+            self.checks += 1
+            if bytes(ob) != oref:
+                out.append(("C04:history:%s:v%d:enc-aliasing" % (oc["cls"], oc["ver"]),
+                            "the object gen_msg() returned for an earlier message held the layout's octets (%s..., %d octets) and holds "
+                            "%s... (%d octets) after a later gen_msg()" % (oref[:12].hex(), len(oref), bytes(ob[:12]).hex(), len(ob)),
+                            [x[2] for x in self.ring] + [c]))
+        if out:
+            self.ring = []          # report once, start over
+        if buf is not None:
+            self.ring = (self.ring + [(buf, ref, c)])[-3:]
+        return out
+
+
+def replay_aliasing(e, msgs):
+    R = EncRing()
+    r = []
+    for c in msgs:
+        ref, pr = check_enc(e, c)
+        r = R.after_encode(e["last_buf"] if not pr else None, ref, c)
+    return r
+
+
 def inplace_visit(e, c):
     """One message object encodes case c, is then edited IN PLACE step by step (burst elements, whole burst content by
     slice assignment, header fields - E.inplace_plan) and encodes again after every edit: the octets must be the
@@ -501,7 +556,10 @@ def work_mut(cases):
            "mut_accepted_other_version": 0, "mut_by_kind": {}, "mut_accepted_by_kind": {}, "hist_extra_datagrams": 0}
     viol, vkeys, nviol = [], set(), 0
     for n, (lab, cls, data, c) in enumerate(seq_mut(e, cases)):
-        st, r = check_reading(e, cls, data)
+        try:
+            st, r = check_reading(e, cls, data)
+        except Exception as ex:
+            st, r = "raised:harness-guard", [unexpected("mut", ex)]
         if lab.startswith(MUT_LABELS):
             cov["mut_evaluations"] += 1
             cov["mut_by_kind"][lab] = cov["mut_by_kind"].get(lab, 0) + 1
@@ -521,12 +579,21 @@ def work_mut(cases):
             if key not in vkeys:
                 vkeys.add(key)
                 viol.append((key, {"leg": "mut", "cls": cls, "data": data.hex(), "mutation": lab, "of": c}, msg))
-        _, hr, hist = H.feed(cls, data)
+        try:
+            _, hr, hist = H.feed(cls, data)
+        except Exception as ex:
+            hr, hist = [unexpected("history", ex)], None
         for key, msg in hr:
             nviol += 1
-            if key not in vkeys:
-                vkeys.add(key)
+            if key in vkeys:
+                continue
+            vkeys.add(key)
+            try:
+                if hist is None:
+                    raise ValueError
                 viol.append(history_viol(e, H, cls, key, msg, hist, (["mut", cases], n)))
+            except Exception:
+                viol.append((key, {"leg": "history-seq", "cls": cls, "seq": ["mut", cases], "n": n}, msg))
     cov.update(H.cov)
     return {"cov": cov, "viol": viol, "nviol_extra": nviol - len(viol)}
 
@@ -547,10 +614,17 @@ def work(chunk):
     nextra = 0
     ninpl = [0, 0]
     sweep = chunk[3] if chunk[0] == "sweep" else None
+    R = EncRing()
+    ncomp = 0
     for i, (kind, cls, data, c) in enumerate(seq_chunk(e, chunk)):
+        enc_done = None
         if kind.startswith("case"):
             n += 1
-            r = check_case(e, c, stat)
+            try:
+                r = check_case(e, c, stat)
+                enc_done = (c, data, not any(":enc:" in x[0] for x in r))
+            except Exception as ex:
+                r = [unexpected("case", ex)]
             k = c[sweep] if sweep else E.case_key(c)
             if k not in keys:
                 keys.add(k)
@@ -566,8 +640,22 @@ def work(chunk):
                 if key not in vkeys:
                     vkeys.add(key)
                     viol.append((key, c, msg))
+            if enc_done is not None:
+                for key, msg, msgs in R.after_encode(e["last_buf"] if enc_done[2] else None, enc_done[1], c):
+                    nviol += 1
+                    if key not in vkeys:
+                        vkeys.add(key)
+                        try:
+                            ok = any(k == key for k, _, _ in replay_aliasing(e, msgs))
+                        except Exception:
+                            ok = False
+                        viol.append((key, {"leg": "enc-aliasing", "msgs": msgs} if ok else
+                                     {"leg": "enc-aliasing-seq", "chunk": chunk, "n": i}, msg))
             if E.inplace_here(chunk, n - 1):
-                ne, ir = inplace_visit(e, c)
+                try:
+                    ne, ir = inplace_visit(e, c)
+                except Exception as ex:
+                    ne, ir = 0, [unexpected("inplace", ex)]
                 ninpl[0] += 1
                 ninpl[1] += ne
                 for key, msg in ir:
@@ -579,15 +667,50 @@ def work(chunk):
                 continue
         else:
             nextra += 1         # extras go to the long-lived object only (their shapes are covered by the mutation leg's prefixes)
-        _, hr, hist = H.feed(cls, data)
+            if kind in ("hdr-only", "v1-burst"):
+                # first extra of a visit: also ENCODE a companion message of the other class / another length, so that the
+                # objects kept for the aliasing check alternate between classes, versions and lengths
+                ncomp += 1
+                m2 = companion(c)
+                try:
+                    ref2, pr = check_enc(e, m2)
+                    al = R.after_encode(e["last_buf"] if not pr else None, ref2, m2)
+                except Exception as ex:
+                    pr, al = [unexpected("companion", ex)], []
+                for key, msg in pr:
+                    nviol += 1
+                    if key not in vkeys:
+                        vkeys.add(key)
+                        viol.append((key, m2, msg))
+                for key, msg, msgs in al:
+                    nviol += 1
+                    if key not in vkeys:
+                        vkeys.add(key)
+                        try:
+                            ok = any(k == key for k, _, _ in replay_aliasing(e, msgs))
+                        except Exception:
+                            ok = False
+                        viol.append((key, {"leg": "enc-aliasing", "msgs": msgs} if ok else
+                                     {"leg": "enc-aliasing-seq", "chunk": chunk, "n": i}, msg))
+        try:
+            _, hr, hist = H.feed(cls, data)
+        except Exception as ex:
+            hr, hist = [unexpected("history", ex)], None
         for key, msg in hr:
             nviol += 1
-            if key not in vkeys:
-                vkeys.add(key)
+            if key in vkeys:
+                continue
+            vkeys.add(key)
+            try:
+                if hist is None:
+                    raise ValueError
                 viol.append(history_viol(e, H, cls, key, msg, hist, (["chunk", chunk], i)))
+            except Exception:
+                viol.append((key, {"leg": "history-seq", "cls": cls, "seq": ["chunk", chunk], "n": i}, msg))
     cov = dict(stat, evaluations=n, distinct_cases=len(keys), distinct_nontrivial=good, octet_comparisons=n,
                reading_comparisons=n, by_class=by_class, by_group=by_group, chunks=1, hist_extra_datagrams=nextra,
-               hist_inplace_visits=ninpl[0], hist_inplace_encodes=ninpl[1])
+               hist_inplace_visits=ninpl[0], hist_inplace_encodes=ninpl[1], hist_enc_aliasing_checks=R.checks,
+               hist_companion_encodes=ncomp)
     cov.update(H.cov)
     return {"cov": cov, "viol": viol, "nviol_extra": nviol - len(viol),
             "samples": [dict(sample, ref_octets_head=ref_octets(e, sample)[:12].hex())] if sample else []}
@@ -859,7 +982,7 @@ def run(ctx):
                         "decoder direction: single-octet mutation neighbourhood + length changes, not all byte strings"]
 
 
-def replay(ctx, case):
+def _replay(ctx, case):
     e = env()
     leg = case.get("leg")
     if leg == "mut":
@@ -869,6 +992,24 @@ def replay(ctx, case):
     elif leg == "inplace":
         for k, m in inplace_visit(e, case["case"])[1]:
             ctx.violation(k, case, m)
+    elif leg == "enc-aliasing":
+        for k, m, _ in replay_aliasing(e, case["msgs"]):
+            ctx.violation(k, case, m)
+    elif leg == "enc-aliasing-seq":
+        R = EncRing()
+        for i, (kind, cls, data, c) in enumerate(seq_chunk(e, case["chunk"])):
+            r = []
+            if kind.startswith("case"):
+                ref, pr = check_enc(e, c)
+                r = R.after_encode(e["last_buf"] if not pr else None, ref, c)
+            elif kind in ("hdr-only", "v1-burst"):
+                m2 = companion(c)
+                ref2, pr = check_enc(e, m2)
+                r = R.after_encode(e["last_buf"] if not pr else None, ref2, m2)
+            if i == case["n"]:
+                for k, m, _ in r:
+                    ctx.violation(k, case, m)
+                break
     elif leg == "history":
         hist = [bytes.fromhex(h) for h in case["history"]]
         for k, m in replay_history(e, case["cls"], hist):
@@ -881,7 +1022,10 @@ def replay(ctx, case):
         for i, (lab, cls, data, c) in enumerate(seq):
             if lab == "case-fresh-only":
                 continue
-            _, hr, hist = H.feed(cls, data)
+            try:
+                _, hr, hist = H.feed(cls, data)
+            except Exception as ex:
+                hr, hist = [unexpected("history", ex)], []
             if i == case["n"]:
                 for k, m in hr:
                     ctx.violation(k, case, m + " [object had parsed %s before]" % ", ".join(
@@ -909,3 +1053,12 @@ def replay(ctx, case):
     else:
         for k, m in check_case(e, case):
             ctx.violation(k, case, m)
+
+
+def replay(ctx, case):
+    leg = case.get("leg", "case")
+    try:
+        _replay(ctx, case)
+    except Exception as ex:
+        k, m = unexpected({"history-seq": "history", "enc-aliasing-seq": "enc-aliasing"}.get(leg, leg), ex)
+        ctx.violation(k, case, m)
